@@ -1073,6 +1073,11 @@ def history_baseform(ctx, i, rng):
         ("derivative", lambda o: ufl.derivative(o, g, ufl.Argument(W, len(o.arguments())))),
         ("action", lambda o: ufl.action(o, f)),
         ("adjoint", lambda o: ufl.adjoint(o)),
+        # the action of an identity (a bare Argument / Coargument) hands its other operand back: unchanged
+        ("action", lambda o: ufl.action(o, ufl.Argument(V, 0))),
+        ("action", lambda o: ufl.action(ufl.Coargument(V.dual(), 0), o)),
+        ("action", lambda o: ufl.Action(ufl.Coargument(V.dual(), 0), o)),
+        ("action", lambda o: ufl.Action(o, ufl.Argument(V, 0))),
         ("replace", lambda o: A.replace(o, {f: ufl.Coefficient(V)})),
         ("BaseForm.__add__", lambda o: o + L),
         ("BaseForm.__add__", lambda o: o + c),
